@@ -1,4 +1,5 @@
 import QmiModel.Lemmas.C01Progress
+import QmiModel.Lemmas.C01ProgressL
 import QmiModel.Lemmas.C01Measure
 import QmiModel.Lemmas.C01Own
 /-!
@@ -8,9 +9,10 @@ Property theorems about the transition system of `Model/Rpc.lean` (one object, o
 many calls and callers, all interleavings, stop/removal/connection-loss/serialisation faults at any point).
 
 * `at_most_once`, `own_outcome` — safety, for **every** configuration (pinned tree included).
-* `no_loss`, `calls_complete`, `object_survives` — for the configuration `Cfg.sound` and a client context that is not
-  stopped while it has calls outstanding (`aStop = false`); this is the `_partial` form of "a call never waits for
-  ever".  Since the repairs 5177c53 (force_unlock on an unlocked object) and dc3d515 (serialisation failures)
+* `calls_complete`, `no_loss`, `lost_only_when_client_stopped` — the full statement for the configuration `Cfg.sound`:
+  at rest every call has its outcome except those in the ghost set `lost`, and `lost` is empty unless the caller's own
+  context was stopped.  `calls_complete_partial`, `no_loss_partial`, `object_survives_partial` are the corollaries under
+  `aStop = false` (kept under their names of the first round).  Since the repairs 5177c53 (force_unlock on an unlocked object) and dc3d515 (serialisation failures)
   `Cfg.sound` *is* the configuration of the source: the harness probes the three bits on every run and reports a
   violation (not a known finding) if one of them is set again.
 * `client_stop_loses_request`, `client_stop_drops_queued_request` — the remaining hypothesis `aStop = false` cannot be
@@ -94,6 +96,37 @@ theorem calls_complete_partial {s : State} (h : Reach Cfg.sound attr s) (hA : s.
   cases hv : s.result r with
   | none => exact absurd hv this
   | some o => exact ⟨o, rfl⟩
+
+theorem reach_ainv {s : State} (h : Reach cfg attr s) : AInv s := by
+  induction h with
+  | init => exact ainv_init
+  | step hr hs ih => exact ainv_step cfg attr (reach_sinv cfg attr hr) ih hs
+
+theorem reach_cinvl {s : State} (h : Reach Cfg.sound attr s) : CInvL attr s := by
+  induction h with
+  | init => exact cinvl_init attr
+  | step hr hs ih => exact cinvl_step attr (reach_sinv _ attr hr) (reach_ainv _ attr hr) ih hs
+
+/-- **a call never waits for ever — full statement** (configuration of the current source, no hypothesis on the
+    client context): whenever the system has come to rest, every issued call has its outcome, *except* the calls
+    recorded in the ghost set `lost`: requests the caller's own context dropped while it was being stopped
+    (`enq` on a finished loop thread, callbacks left in the queue when the loop exits). -/
+theorem calls_complete {s : State} (h : Reach Cfg.sound attr s) (hq : Quiescent Cfg.sound attr s) (r : ReqId)
+    (hr : r ∈ s.issued) : (∃ o, s.result r = some o) ∨ r ∈ s.lost := by
+  rcases stuck_implies_done_or_lost attr (reach_sinv _ attr h) (reach_ainv _ attr h) (reach_cinvl attr h) hq r hr with h1 | h1
+  · cases hv : s.result r with
+    | none => exact absurd hv h1
+    | some o => exact Or.inl ⟨o, rfl⟩
+  · exact Or.inr h1
+
+/-- ... and nothing is ever lost unless the client context itself was stopped (every configuration) -/
+theorem lost_only_when_client_stopped {s : State} (h : Reach cfg attr s) (hA : s.aStop = false) : s.lost = [] :=
+  (reach_ainv cfg attr h).lost_stop hA
+
+/-- no loss, full statement: an issued call without outcome has a live carrier or is in `lost` -/
+theorem no_loss {s : State} (h : Reach Cfg.sound attr s) (r : ReqId) (hr : r ∈ s.issued) (hn : s.result r = none) :
+    r ∈ s.lost ∨ Good attr s r :=
+  reach_cinvl attr h r hr hn
 
 /-- **a target object that still exists keeps serving**: the worker never dies (repaired configuration) -/
 theorem object_survives_partial {s : State} (h : Reach Cfg.sound attr s) : s.phase ≠ .crashed :=
